@@ -241,7 +241,6 @@ def allAmounts (g : Journal) : List Amount :=
 
 def knownShapes (g : Journal) : List String :=
   (if g.entries.all entryDescPlain then [] else ["description-first-word-decides-token"]) ++
-  (if g.crlf then ["crlf-line-ends"] else []) ++
   (if (allPostings g).any rcommTail then ["text-commodity-swallows-rest-of-line"] else []) ++
   (if (allAmounts g).any signLetterCommodity then ["sign-before-spaced-letter-commodity"] else []) ++
   (if (allPostings g).any digitBeforeCommodity then ["digit-ending-account-before-commodity"] else []) ++
